@@ -230,6 +230,45 @@ pub fn main(tier: Tier, seed: u64) -> i32 {
         }
     }
     rep.set("ot_messages_compared_across_peers", json!(peer_pairs));
+    // 7. the random padding of the KOS receiver (probe `kos_pad`) is what hides a 128-bit linear hash
+    // of its choice bits (= mask shares) inside the consistency-check value: every padding must be
+    // fresh (no two sessions alike), not a repetition of one byte, and over all sessions every one
+    // of its bit positions must take both values
+    {
+        // runs of one non-interference configuration share their tape on purpose (they differ in the
+        // input only), so paddings are compared inside one execution and then pooled without copies
+        let mut pads: Vec<Vec<u8>> = vec![];
+        let mut repeated_in_run = 0usize;
+        for (_, r, ok) in ni_res.iter() {
+            if ok.is_ok() {
+                let mine: Vec<Vec<u8>> = r.probes.iter().filter(|p| p.name == "kos_pad").filter_map(|p| if let ProbeVal::Bytes(b) = &p.val { Some(b.clone()) } else { None }).collect();
+                let d: HashSet<&Vec<u8>> = mine.iter().collect();
+                repeated_in_run += mine.len() - d.len();
+                for p in mine {
+                    if !pads.contains(&p) {
+                        pads.push(p);
+                    }
+                }
+            }
+        }
+        let some_case = ni_res.first().map(|x| x.0.clone());
+        if pads.len() < 64 {
+            rep.machinery(format!("only {} KOS paddings probed", pads.len()));
+        } else {
+            if let Some(p) = pads.iter().find(|p| p.len() >= 4 && p.iter().all(|b| *b == p[0])) {
+                rep.violation("kos_padding_low_entropy", format!("a KOS receiver padded its choice bits with {} copies of the byte {:#04x}", p.len(), p[0]), json!({"kind":"mpc_case","case":some_case}));
+            }
+            if repeated_in_run > 0 {
+                rep.violation("kos_padding_repeated", format!("{repeated_in_run} KOS paddings are copies of another session's padding in the same execution"), json!({"kind":"mpc_case","case":some_case}));
+            }
+            let bits = pads.iter().map(|p| p.len()).min().unwrap_or(0) * 8;
+            let stuck: Vec<usize> = (0..bits).filter(|i| pads.iter().all(|p| (p[i / 8] >> (i % 8)) & 1 == (pads[0][i / 8] >> (i % 8)) & 1)).collect();
+            if !stuck.is_empty() {
+                rep.violation("kos_padding_constant_bits", format!("{} of {bits} padding bit positions never change over {} sessions (e.g. bit {})", stuck.len(), pads.len(), stuck[0]), json!({"kind":"mpc_case","case":some_case}));
+            }
+        }
+        rep.set("kos_paddings_probed", json!(pads.len()));
+    }
     let mut ni_checked = 0u64;
     for (ci, (_, h)) in ni_cfgs.iter().enumerate() {
         let runs: Vec<&(MpcCase, RunResult<Vec<bool>>, Result<(), String>)> =
